@@ -523,3 +523,145 @@ class DepLedger:
             fl = {"r": 0, "m": 1, "s": 2}
             self.deps[k] = [(key, fl[mode]) for key, mode, _ in summary["requests"].get(k, [])] + \
                            [(d, 0) for d in summary["discs"].get(k, [])]
+
+
+# ------------------------------------------------------------------ database oracle
+
+
+class CompletionLedger:
+    """What the database must contain: for every key the last completion the engine
+    *processed* (status IsComplete seen), with the dependency list of that same
+    execution and the engine epochs, all taken from the trace."""
+
+    def __init__(self):
+        self.rows = {}
+
+    def clear(self):
+        self.rows = {}
+
+    def update(self, summary, world, epoch, strict_computed=True):
+        fl = {"r": 0, "m": 1, "s": 2}
+        for k in summary["complete_status"]:
+            if k not in summary["completes"]:
+                continue
+            val, force = summary["completes"][k]
+            val = "" if val == "-" else val
+            prev = self.rows.get(k)
+            changed = prev is None or force or prev["value"] != val
+            reqs = summary["requests"].get(k, [])
+            self.rows[k] = {
+                "value": val,
+                "sig": world.signature(k),
+                "built": epoch,
+                "computed": epoch if changed else prev["computed"],
+                "computed_alt": epoch,
+                "reqs": [(key, fl[mode]) for key, mode, _ in reqs],
+                "discs": [(d, 0) for d in summary["discs"].get(k, [])],
+                "cond": self._cond_pairs(world.spec(k), reqs),
+            }
+
+    @staticmethod
+    def _cond_pairs(spec, reqs):
+        """(src key, dependent key) pairs: the dependent was requested only after src arrived."""
+        out = []
+        if spec.get("leaf"):
+            return out
+        for key, mode, iid in reqs:
+            idx = (iid - 3) // 7
+            if idx < len(spec["ins"]) and spec["ins"][idx]["src"] >= 0:
+                out.append((spec["ins"][spec["ins"][idx]["src"]]["key"], key))
+        return out
+
+
+def check_db(db, ledger, iteration=None, strict_computed=True):
+    """db: parsed dump (see parse_trace). -> violation string or None."""
+    if db is None:
+        return "no database dump"
+    if db["errors"]:
+        return "database dump error: %s" % db["errors"][0]
+    if db["integrity"] != ["6f6b"]:
+        return "PRAGMA integrity_check: %s" % [unhx(x) for x in db["integrity"]]
+    id2key = {}
+    for k in db["keys"]:
+        if k["id"] in id2key:
+            return "duplicate key id %s" % k["id"]
+        id2key[k["id"]] = k["key"]
+    if len(set(id2key.values())) != len(id2key):
+        return "two key ids share one key: %s" % sorted(id2key.items())
+    rows = {}
+    for r in db["rows"]:
+        if r["keyid"] not in id2key:
+            return "rule_results row %s refers to a key id missing from key_names" % r["keyid"]
+        key = id2key[r["keyid"]]
+        if key in rows:
+            return "two rows for key %s" % key
+        deps = []
+        if r["deps"] != "-":
+            for d in r["deps"].split(","):
+                did, _, f = d.partition(":")
+                if did not in id2key:
+                    return "row %s: dependency id %s does not resolve in key_names" % (key, did)
+                deps.append((id2key[did], int(f)))
+        if int(r["rawlen"]) % 8:
+            return "row %s: dependency blob length %s" % (key, r["rawlen"])
+        rows[key] = {"value": "" if r["value"] == "-" else r["value"], "sig": int(r["sig"]), "built": int(r["built"]),
+                     "computed": int(r["computed"]), "deps": deps}
+    api = {}
+    for a in db["api"]:
+        deps = []
+        if a["deps"] != "-":
+            for d in a["deps"].split(","):
+                dk, _, f = d.rpartition(":")
+                deps.append(("" if dk == "-" else dk, int(f)))
+        k = "" if a["key"] == "-" else a["key"]
+        if k in api:
+            return "BuildDB::getKeysWithResult returned key %s twice" % k
+        api[k] = {"value": "" if a["value"] == "-" else a["value"], "sig": int(a["sig"]), "built": int(a["built"]),
+                  "computed": int(a["computed"]), "deps": deps}
+    norm = lambda k: "" if k == "-" else k
+    rows = {norm(k): v for k, v in rows.items()}
+    for v in rows.values():
+        v["deps"] = [(norm(k), f) for k, f in v["deps"]]
+    if api != rows:
+        only = sorted(set(api) ^ set(rows))
+        diff = [k for k in api if k in rows and api[k] != rows[k]]
+        return "a fresh BuildDB reads back something else than the raw rows: only-one-side=%s differing=%s %s" % (
+            only, diff, [(api[k], rows[k]) for k in diff[:1]])
+    if db["info"] is None:
+        return "info row missing"
+    it = int(db["info"]["iteration"])
+    if iteration is not None and it != iteration:
+        return "stored iteration %d != engine epoch %d" % (it, iteration)
+    for key, r in rows.items():
+        if r["built"] > it or r["computed"] > it:
+            return "row %s has epochs (%d,%d) beyond the stored iteration %d" % (key, r["built"], r["computed"], it)
+        if r["computed"] > r["built"]:
+            return "row %s: computed_at %d > built_at %d" % (key, r["computed"], r["built"])
+    want = ledger.rows
+    if set(want) != set(rows):
+        return "database keys %s != completed keys %s" % (sorted(rows), sorted(want))
+    for key, wv in want.items():
+        r = rows[key]
+        if r["value"] != wv["value"]:
+            return "row %s holds value %s but the last processed completion produced %s" % (key, r["value"], wv["value"])
+        if r["sig"] != wv["sig"]:
+            return "row %s holds signature %d, rule signature at completion was %d" % (key, r["sig"], wv["sig"])
+        if r["built"] != wv["built"]:
+            return "row %s built_at %d, completion was processed in epoch %d" % (key, r["built"], wv["built"])
+        if strict_computed:
+            if r["computed"] != wv["computed"]:
+                return "row %s computed_at %d, expected %d" % (key, r["computed"], wv["computed"])
+        elif r["computed"] not in (wv["computed"], wv["computed_alt"]):
+            return "row %s computed_at %d, expected %d or %d" % (key, r["computed"], wv["computed"], wv["computed_alt"])
+        exp = wv["reqs"] + wv["discs"]
+        if sorted(r["deps"]) != sorted(exp):
+            return "row %s dependency list %s is not the list of that execution %s" % (key, r["deps"], exp)
+        nreq = len(wv["reqs"])
+        if sorted(r["deps"][:nreq]) != sorted(wv["reqs"]) or r["deps"][nreq:] != wv["discs"]:
+            return "row %s: discovered dependencies are not recorded after the requested ones, in order: %s vs %s+%s" % (
+                key, r["deps"], wv["reqs"], wv["discs"])
+        order = [k for k, _ in r["deps"][:nreq]]
+        for src, dep in wv["cond"]:
+            if order.index(src) > order.index(dep):
+                return "row %s: %s recorded before %s although it was requested on %s's value" % (key, dep, src, src)
+    return None
